@@ -30,6 +30,8 @@ case = {'cfg': {...}, 'ops': [[op, arg?]...], 'kind': str, 'model': bool (defaul
        | loginslow             login() as its own task whose SessionInitialized listener of the APPLICATION stays
                                suspended (the library's burst is complete, the reader not started) until `release`
                                (monitor only)
+       | peerin n              n remote peers connect to the clear listening port and introduce themselves (PeerInit,
+                               type P): n established idle peer connections, each with its reader   (monitor only)
        | breakwrites 0|1       from now on writes of the client to the server fail (1: the transport is already gone,
                                wait_closed() does not suspend); the loss is noticed by whichever task of the LIBRARY
                                writes next: the keep-alive (`tick 601`) or the wishlist job (`wl`)   (monitor only)
@@ -604,6 +606,15 @@ def _run_impl(case: dict) -> dict:
                     await simloop.settle()
                     arm['init'] = None
                     srv.mode = saved_mode
+            elif k == 'peerin':
+                if cfg['clear'] not in net.listeners:
+                    inv = 1
+                else:
+                    for j in range(op[1]):
+                        nn = len(keep)
+                        rr, rw = await net.connect_in(cfg['clear'], ('10.0.1.%d' % (nn % 250), 40000 + nn))
+                        rw.write(m.PeerInit.Request(username=f'peer{nn}', typ='P', ticket=nn).serialize())
+                        keep.append((rr, rw))
             elif k == 'breakwrites':
                 if not connected:
                     inv = 1
@@ -1412,6 +1423,16 @@ def _glue(tier: str) -> list[dict]:
                             ['tick', 24], ['exec']] + END})
         out.append({'kind': f'glue-ping-write-fails-{gone}-stop', 'cfg': _base_cfg(), 'model': False,
                     'ops': [['start'], ['login'], ['breakwrites', gone], ['tick', 601], ['tick', 4]] + END})
+    # established peer connections (0..4, incoming) at stop(), with and without a session / after a loss
+    for n in (1, 2, 3, 4):
+        out.append({'kind': f'glue-peers-{n}-stop', 'cfg': _base_cfg(), 'model': False,
+                    'ops': [['start'], ['login'], ['peerin', n], ['tick', 2]] + END})
+    out.append({'kind': 'glue-peers-no-session-stop', 'cfg': _base_cfg(reconnect=False), 'model': False,
+                'ops': [['start'], ['peerin', 3]] + END})
+    out.append({'kind': 'glue-peers-after-loss-stop', 'cfg': _base_cfg(), 'model': False,
+                'ops': [['start'], ['login'], ['peerin', 2], ['loss', 'read_error'], ['peerin', 2], ['tick', 4]] + END})
+    out.append({'kind': 'glue-peers-in-burst-stop', 'cfg': _base_cfg(), 'model': False,
+                'ops': [['start'], ['peerin', 3], ['loginat', 5, 'stop'], ['tick', HOUR_TICKS]]})
     # a slow SessionInitialized listener of the application: the connection is lost and re-established (watchdog /
     # application) before login() resumes
     slow = [
